@@ -91,6 +91,14 @@ def run(chk, prog):
                 # which importance calls carry the constraint?
                 def constraint_of(c):
                     return c[2][1] if len(c[2]) >= 2 else None
+                for c_ in imps:
+                    k_ = c_[2][0] if c_[2] else None
+                    def keyish(t):
+                        while is_t(t, "proj") or is_t(t, "elem"):
+                            t = t[1]
+                        return t == P("key") or is_call(t, "split", "fold_in")
+                    chk.require(k_ is not None and keyish(k_) and (len(c_[2]) < 2 or not keyish(c_[2][1])), "DELEG-ROLE", inst + "/importance-args", "target.importance(key, constraint) argument roles",
+                                derived=show(c_)[:200], expected="a key derived from `key` first, the constraint second", where=where)
                 cons = [constraint_of(c) for c in imps]
                 dep_choices = [c for c in cons if c is not None and not (is_call(c, "empty") or c == ("elem", ("call", ("attr", G("genjax._src.core.generative.choice_map.ChoiceMap"), "empty"), (), ())))]
                 if meth == "run_smc":
